@@ -36,7 +36,7 @@ package generic
 //@ func (c *GenericQuoteState) NextToken
 //@   requires c != nil && isScanner(scanner) && sc(scanner).position + 1 < len(sc(scanner).content)
 //@   requires forall i int :: 0 <= i && i < len(sc(scanner).content) ==> scalar(sc(scanner).content[i])
-//@   ensures[C04,C12] result != nil && isScanner(scanner) && sc(scanner).content == old(sc(scanner).content)
+//@   ensures[C04,C12] result != nil && isScanner(scanner) && sc(scanner).content == old(sc(scanner).content) && result.typ != tokenizers.Eof
 //@   ensures[C04,C14] spans(result.value, scanner, old(cur(scanner)), cur(scanner))
 //@   ensures[C12] result.line == L(seq(sc(scanner).content), old(cur(scanner))) && result.column == C(seq(sc(scanner).content), old(cur(scanner)))
 //@   ensures[C14] result.typ == tokenizers.Quoted
@@ -57,7 +57,7 @@ package generic
 //@ func (c *GenericWordState) NextToken
 //@   requires c != nil && mapInv(c.mp) && isScanner(scanner) && sc(scanner).position + 1 < len(sc(scanner).content)
 //@   requires forall i int :: 0 <= i && i < len(sc(scanner).content) ==> scalar(sc(scanner).content[i])
-//@   ensures[C04,C12] result != nil && isScanner(scanner) && sc(scanner).content == old(sc(scanner).content)
+//@   ensures[C04,C12] result != nil && isScanner(scanner) && sc(scanner).content == old(sc(scanner).content) && result.typ != tokenizers.Eof
 //@   ensures[C04] spans(result.value, scanner, old(cur(scanner)), cur(scanner))
 //@   ensures[C12] result.line == L(seq(sc(scanner).content), old(cur(scanner))) && result.column == C(seq(sc(scanner).content), old(cur(scanner)))
 //@   ensures[C13] result.typ == tokenizers.Word && allIn(c.mp, scanner, old(cur(scanner)) + 1, cur(scanner))
@@ -76,7 +76,7 @@ package generic
 //@ func (c *GenericWhitespaceState) NextToken
 //@   requires c != nil && mapInv(c.mp) && isScanner(scanner) && sc(scanner).position + 1 < len(sc(scanner).content)
 //@   requires forall i int :: 0 <= i && i < len(sc(scanner).content) ==> scalar(sc(scanner).content[i])
-//@   ensures[C04,C12] result != nil && isScanner(scanner) && sc(scanner).content == old(sc(scanner).content)
+//@   ensures[C04,C12] result != nil && isScanner(scanner) && sc(scanner).content == old(sc(scanner).content) && result.typ != tokenizers.Eof
 //@   ensures[C04] spans(result.value, scanner, old(cur(scanner)), cur(scanner))
 //@   ensures[C12] result.line == L(seq(sc(scanner).content), old(cur(scanner))) && result.column == C(seq(sc(scanner).content), old(cur(scanner)))
 //@   ensures[C13] result.typ == tokenizers.Whitespace && allIn(c.mp, scanner, old(cur(scanner)), cur(scanner))
@@ -96,7 +96,7 @@ package generic
 //@ func (c *GenericCommentState) NextToken
 //@   requires c != nil && isScanner(scanner) && sc(scanner).position + 1 < len(sc(scanner).content)
 //@   requires forall i int :: 0 <= i && i < len(sc(scanner).content) ==> scalar(sc(scanner).content[i])
-//@   ensures[C04,C12] result != nil && isScanner(scanner) && sc(scanner).content == old(sc(scanner).content)
+//@   ensures[C04,C12] result != nil && isScanner(scanner) && sc(scanner).content == old(sc(scanner).content) && result.typ != tokenizers.Eof
 //@   ensures[C04] spans(result.value, scanner, old(cur(scanner)), cur(scanner))
 //@   ensures[C12] result.line == L(seq(sc(scanner).content), old(cur(scanner))) && result.column == C(seq(sc(scanner).content), old(cur(scanner)))
 //@   ensures[C13] result.typ == tokenizers.Comment
@@ -118,7 +118,7 @@ package generic
 //@   requires c != nil && isScanner(scanner) && sc(scanner).position + 1 < len(sc(scanner).content)
 //@   requires forall i int :: 0 <= i && i < len(sc(scanner).content) ==> scalar(sc(scanner).content[i])
 //@   requires tokenizer != nil && symState(tokenizer) != nil
-//@   ensures[C04,C12] result != nil && isScanner(scanner) && sc(scanner).content == old(sc(scanner).content)
+//@   ensures[C04,C12] result != nil && isScanner(scanner) && sc(scanner).content == old(sc(scanner).content) && result.typ != tokenizers.Eof
 //@   ensures[C04] spans(result.value, scanner, old(cur(scanner)), cur(scanner))
 //@   ensures[C12] result.line == L(seq(sc(scanner).content), old(cur(scanner))) && result.column == C(seq(sc(scanner).content), old(cur(scanner)))
 //@   assigns sc(scanner).position, sc(scanner).line, sc(scanner).column
@@ -174,7 +174,7 @@ package generic
 //@   requires forall i int :: 0 <= i && i < len(sc(scanner).content) ==> scalar(sc(scanner).content[i])
 //@   requires tokenizer != nil && symState(tokenizer) != nil
 //@   requires sc(scanner).content[sc(scanner).position + 1] == 47   -- entered on '/' (the dispatch table guarantees it)
-//@   ensures[C04,C12] result != nil && isScanner(scanner) && sc(scanner).content == old(sc(scanner).content)
+//@   ensures[C04,C12] result != nil && isScanner(scanner) && sc(scanner).content == old(sc(scanner).content) && result.typ != tokenizers.Eof
 //@   ensures[C04] spans(result.value, scanner, old(cur(scanner)), cur(scanner))
 //@   ensures[C12] result.line == L(seq(sc(scanner).content), old(cur(scanner))) && result.column == C(seq(sc(scanner).content), old(cur(scanner)))
 //@   assigns sc(scanner).position, sc(scanner).line, sc(scanner).column
@@ -185,7 +185,7 @@ package generic
 //@   requires forall i int :: 0 <= i && i < len(sc(scanner).content) ==> scalar(sc(scanner).content[i])
 //@   requires tokenizer != nil && symState(tokenizer) != nil
 //@   requires sc(scanner).content[sc(scanner).position + 1] == 47
-//@   ensures[C04,C12] result != nil && isScanner(scanner) && sc(scanner).content == old(sc(scanner).content)
+//@   ensures[C04,C12] result != nil && isScanner(scanner) && sc(scanner).content == old(sc(scanner).content) && result.typ != tokenizers.Eof
 //@   ensures[C04] spans(result.value, scanner, old(cur(scanner)), cur(scanner))
 //@   ensures[C12] result.line == L(seq(sc(scanner).content), old(cur(scanner))) && result.column == C(seq(sc(scanner).content), old(cur(scanner)))
 //@   assigns sc(scanner).position, sc(scanner).line, sc(scanner).column
@@ -211,7 +211,7 @@ package generic
 //@   trusted
 //@   requires c != nil && isScanner(scanner) && sc(scanner).position + 1 < len(sc(scanner).content)
 //@   requires forall i int :: 0 <= i && i < len(sc(scanner).content) ==> scalar(sc(scanner).content[i])
-//@   ensures[C04,C12] result != nil && isScanner(scanner) && sc(scanner).content == old(sc(scanner).content)
+//@   ensures[C04,C12] result != nil && isScanner(scanner) && sc(scanner).content == old(sc(scanner).content) && result.typ != tokenizers.Eof
 //@   ensures[C04] spans(result.value, scanner, old(cur(scanner)), cur(scanner))
 //@   ensures[C12] result.line == L(seq(sc(scanner).content), old(cur(scanner))) && result.column == C(seq(sc(scanner).content), old(cur(scanner)))
 //@   assigns sc(scanner).position, sc(scanner).line, sc(scanner).column
@@ -220,7 +220,7 @@ package generic
 //@   requires c.symbols != nil
 //@   requires c != nil && isScanner(scanner) && sc(scanner).position + 1 < len(sc(scanner).content)
 //@   requires forall i int :: 0 <= i && i < len(sc(scanner).content) ==> scalar(sc(scanner).content[i])
-//@   ensures[C04,C12] result != nil && isScanner(scanner) && sc(scanner).content == old(sc(scanner).content)
+//@   ensures[C04,C12] result != nil && isScanner(scanner) && sc(scanner).content == old(sc(scanner).content) && result.typ != tokenizers.Eof
 //@   ensures[C04] spans(result.value, scanner, old(cur(scanner)), cur(scanner))
 //@   ensures[C12] result.line == L(seq(sc(scanner).content), old(cur(scanner))) && result.column == C(seq(sc(scanner).content), old(cur(scanner)))
 //@   assigns sc(scanner).position, sc(scanner).line, sc(scanner).column
